@@ -816,4 +816,93 @@ def monC05b : ObsMonitor Obs Unit where
     | .quiesce _ _ live => if live.length ≤ 1 then some () else none
     | _ => some ()
 
+/-! ## C14, run causes: the clause monitor that has an `_obs` theorem (`C14rc_obs`) -/
+
+structure C14rcSt where
+  cfg : Cfg := {}
+  fresh : List Nat := []        -- entered while no mutating call was in flight, none invoked since; context not yet probed
+  ok : List Nat := []           -- … and seen with a live context
+  pendMut : List Nat := []      -- mutating API calls in flight
+  needCause : Bool := false
+  needS : Bool := false
+  lastExit : Option (Option Nat) := none
+  retd : Nat := 0
+deriving Repr
+
+def isErrExit : Option (Option Nat) → Bool
+  | some (some _) => true
+  | _ => false
+
+def C14rcSt.settle (ms : C14rcSt) : C14rcSt :=
+  { ms with lastExit := none, retd := if ms.retd == 1 then 0 else ms.retd }
+
+/-- **C14, run causes** (clause monitor): after the container's current instance has reported a success (`bo reset`,
+or the first exit callback with nil when no backoff is configured) no instance enters before RestartRoutine or a
+call that sets a new routine / state is invoked; after it has reported an error without arming a retry (`bo stop`, or
+the first exit callback with that error when no backoff is configured) none enters before such a call or
+SetContext(restart = true) is invoked. "The current instance": an instance that entered while no mutating call was
+in flight, was then seen with a live context, and returned before any mutating call was invoked (`lastExit`). A
+success / callback report is credited to it only when it is the only instance that can be reporting (`retd = 1`,
+an upper bound of the instances that returned something else than context.Canceled and whose final section has not
+reported; it is reset at quiescence lines): the delayed final section of a superseded instance may report in
+between. `bo stop` / `bo dur` are only ever reported by the container's current instance. -/
+def monC14rc : ObsMonitor Obs C14rcSt where
+  init := {}
+  step := fun ms o =>
+    match o with
+    | .cfg c => some { ms with cfg := c }
+    | .cbin k _ _ _ =>
+      if ms.needCause || ms.needS then none
+      else some { ms with fresh := if ms.pendMut.isEmpty then k :: ms.fresh else ms.fresh }
+    | .probeCtx k true => some { ms with fresh := ms.fresh.filter (· != k), ok := ms.ok.filter (· != k) }
+    | .probeCtx k false =>
+      some (if ms.fresh.contains k then { ms with fresh := ms.fresh.filter (· != k), ok := k :: ms.ok } else ms)
+    | .cbout k e =>
+      -- (at most one instance executes at a time, C04: whatever else was tracked is stale)
+      some { ms with fresh := [], ok := [], retd := ms.retd + 1,
+                     lastExit := if ms.ok.contains k then (if ms.cfg.retry || ms.cfg.ncb != 0 then some e else none)
+                                 else ms.lastExit }
+    | .bo .dur => some { ms with lastExit := none, needCause := false }
+    | .bo .stop => some { ms with lastExit := none, needCause := ms.needCause || isErrExit ms.lastExit }
+    | .bo .reset => some { ms.settle with needS := ms.needS || (ms.retd == 1 && ms.lastExit == some none) }
+    | .exitcb j e =>
+      if j == 0 && !ms.cfg.retry then
+        if e == some 0 then some { ms with lastExit := none }
+        else some { ms.settle with
+                      needCause := ms.needCause || (ms.retd == 1 && e.isSome && ms.lastExit == some e),
+                      needS := ms.needS || (ms.retd == 1 && e.isNone && ms.lastExit == some e) }
+      else some ms
+    | .inv a op =>
+      if op.quiet then some ms
+      else
+        let ms1 := { ms with fresh := [], ok := [], pendMut := a :: ms.pendMut, lastExit := none }
+        (match op with
+         | .setContext _ r => some { ms1 with needCause := if r then false else ms.needCause }
+         | _ => some { ms1 with needCause := false, needS := false })
+    | .ret a _ => some { ms with pendMut := ms.pendMut.filter (· != a) }
+    | .quiesce _ _ _ => some { ms with retd := 0, lastExit := none }
+    | _ => some ms
+
+/-- the run that the first version of the run-cause clause of `monC14` rejected (a delayed final section of a
+superseded instance reports between the return of the current instance and its own report) is accepted -/
+example : monC14rc.accepts
+    [.cfg { retry := true }, .inv 0 (.setContext 1 false), .ret 0 (.bool false), .inv 1 (.setRoutine 1),
+     .ret 1 (.setR false false), .cbin 0 1 0 1, .probeCtx 0 false, .inv 2 (.setRoutine 2), .ret 2 (.setR true true),
+     .cbout 0 none, .cbin 1 2 0 1, .probeCtx 1 false, .cbout 1 none, .bo .reset, .inv 3 (.setContext 2 false),
+     .ret 3 (.bool true), .cbin 2 2 0 2] = true := by decide
+
+/-- … and the clause fires when the attribution is unambiguous -/
+example : monC14rc.accepts
+    [.cfg { retry := true }, .inv 0 (.setContext 1 false), .ret 0 (.bool false), .inv 1 (.setRoutine 1),
+     .ret 1 (.setR false false), .cbin 0 1 0 1, .probeCtx 0 false, .cbout 0 none, .bo .reset,
+     .cbin 1 1 0 1] = false := by decide
+example : monC14rc.accepts
+    [.cfg { retry := true }, .inv 0 (.setContext 1 false), .ret 0 (.bool false), .inv 1 (.setRoutine 1),
+     .ret 1 (.setR false false), .cbin 0 1 0 1, .probeCtx 0 false, .cbout 0 (some 3), .bo .stop,
+     .cbin 1 1 0 1] = false := by decide
+example : monC14rc.accepts
+    [.cfg { ncb := 1 }, .inv 0 (.setContext 1 false), .ret 0 (.bool false), .inv 1 (.setRoutine 1),
+     .ret 1 (.setR false false), .cbin 0 1 0 1, .probeCtx 0 false, .cbout 0 (some 3), .exitcb 0 (some 3),
+     .inv 2 (.setContext 2 false), .ret 2 (.bool true), .cbin 1 1 0 2] = false := by decide
+
 end UtilModel.Routine
